@@ -295,6 +295,44 @@ func main() {
 				}
 			}
 		}
+		// a multi-polygon measures as the sum of its polygons, a polygon as its outer ring less its holes - whatever
+		// spelling (closed or not) the rings have and wherever the member stands
+		if mp, ok := g.(orb.MultiPolygon); ok && len(mp) > 0 {
+			if v, p := try(func() interface{} { return planar.Area(mp.Clone()) }); p == "" {
+				sum, bad := 0.0, false
+				for _, m := range mp {
+					mv, mp2 := try(func() interface{} { return planar.Area(m.Clone()) })
+					if mp2 != "" {
+						bad = true
+						break
+					}
+					sum += mv.(float64)
+				}
+				if a := v.(float64); !bad && a != sum && math.Abs(a-sum) > 1e-9*math.Max(math.Abs(a), math.Abs(sum)) {
+					c.Failf("collection-combination", "planar.Area(%s) = %v, its polygons alone add up to %v", desc, a, sum)
+				}
+			}
+		}
+		if pg, ok := g.(orb.Polygon); ok && len(pg) > 1 {
+			if v, p := try(func() interface{} { return planar.Area(pg.Clone()) }); p == "" {
+				want, bad := 0.0, false
+				for i, rg := range pg {
+					rv, rp := try(func() interface{} { return planar.Area(rg.Clone()) })
+					if rp != "" {
+						bad = true
+						break
+					}
+					if a := math.Abs(rv.(float64)); i == 0 {
+						want = a
+					} else {
+						want -= a
+					}
+				}
+				if a := v.(float64); !bad && a != want && math.Abs(a-want) > 1e-9*math.Max(math.Abs(a), math.Abs(want)) {
+					c.Failf("collection-combination", "planar.Area(%s) = %v, its outer ring less its holes is %v", desc, a, want)
+				}
+			}
+		}
 		for _, e := range reg {
 			arg := orb.Clone(g)
 			if arg == nil {
